@@ -198,6 +198,21 @@ def step (s : St) (toks : List String) : St × List String :=
             let t0 := pcmTell vf
             let ((rc, link), vf1) := (readFloat ph (arg 0)).run vf
             put { sl with vf := vf1 } [s!"read rc={ovname rc} link={if rc > 0 then link else -1} t0={t0} t1={pcmTell vf1}"]
+        | "readto" =>
+            -- read on until the position reaches the target, with requests sized so that it lands on it exactly
+            let rec go (fuel : Nat) (v : VF) (last : Int) : VF × Int :=
+              match fuel with
+              | 0 => (v, last)
+              | f + 1 =>
+                  let t0 := pcmTell v
+                  if t0 < 0 ∨ t0 ≥ arg 0 then (v, last)
+                  else
+                    let w0 := (arg 0 - t0) / (if v.hs > 0 then 2 else 1)
+                    let want := if w0 < 1 then 1 else if w0 > 4096 then 4096 else w0
+                    let ((rc, _), v1) := (readFloat ph want).run v
+                    if rc ≤ 0 then (v1, rc) else go f v1 rc
+            let (vf1, last) := go 200000 vf 0
+            put { sl with vf := vf1 } [s!"readto rc={ovname (if last < 0 then last else 0)} tell={pcmTell vf1}"]
         | "readi" =>
             let t0 := pcmTell vf
             let word := arg 2
